@@ -18,6 +18,7 @@
 package kv
 
 import (
+	"fmt"
 	"math/rand"
 	"path/filepath"
 	"sort"
@@ -280,10 +281,19 @@ func (f *family) doRollupWork(sourceFamily Family, rollup Rollup, sourceFiles []
 	var inputFiles []*version.FileMeta
 	var logs []version.Log
 	for fileNumber := range targetFiles {
-		if fm, ok := v.GetFile(0, fileNumber); ok {
-			inputFiles = append(inputFiles, fm)
-			logs = append(logs, version.CreateNewReferenceFile(sourceStore, sourceFamilyID, fileNumber))
+		fm, ok := v.GetFile(0, fileNumber)
+		if !ok {
+			// compaction moved the file out of level0 already. It is still registered for rollup,
+			// so its table file is kept(see deleteObsoleteFiles) and must be read from there,
+			// compact job opens input by file number. If it cannot be read, fail the job,
+			// then source family keeps the rollup file.
+			if _, err := snapshot.GetReader(fileNumber); err != nil {
+				return fmt.Errorf("rollup source file %d not found: %w", fileNumber.Int64(), err)
+			}
+			fm = version.NewFileMeta(fileNumber, 0, 0, 0)
 		}
+		inputFiles = append(inputFiles, fm)
+		logs = append(logs, version.CreateNewReferenceFile(sourceStore, sourceFamilyID, fileNumber))
 	}
 	compaction := version.NewCompaction(f.ID(), 0, inputFiles, nil)
 	// add reference file edit logs
